@@ -42,14 +42,14 @@ func init() {
 			}
 			return 16
 		},
-		Rule: "each case = one fresh key pair (now and then a boundary scalar), one v3 transaction from that key whose id is computed by the harness's own serializer, signed with decred directly; then ~600 signature variants (every single-bit flip of the 65-byte signature, V in a boundary set, 64-byte and other lengths, r/s = 0 / N / N+1 / 2^256-1, malleated twin with and without V flip, other key, other id, id bit-flip, sender replaced, signer == recipient) each submitted through the JSON path and through the RLP binary path; Verify()==nil must hold iff the reference recovery yields the sender address; goloop's RecoverPublicKey must agree with the reference on every variant; plus Sign/Recover/serialize round trips through crypto.Signature, common.Signature and wallet for hashes of 1..32 bytes. Non-trivial = distinct (transaction id, signature bytes) pair that is not the untouched valid signature.",
+		Rule: "each case = one fresh key pair (now and then a boundary scalar), one v3 transaction from that key whose id is computed by the harness's own serializer, signed with decred directly; then ~600 signature variants (every single-bit flip of the 65-byte signature, V in a boundary set, 64-byte and other lengths, r/s = 0 / N / N+1 / 2^256-1, malleated twin with and without V flip, other key, other id, id bit-flip, sender replaced, signer == recipient, sender = contract-typed address cx<body> with the signer's own 20-byte body) each submitted through the JSON path and through the RLP binary path; Verify()==nil must hold iff the reference recovery yields the sender address including its type prefix (a key owns only hx<body>); goloop's RecoverPublicKey must agree with the reference on every variant; plus Sign/Recover/serialize round trips through crypto.Signature, common.Signature and wallet for hashes of 1..32 bytes. Non-trivial = distinct (transaction id, signature bytes) pair that is not the untouched valid signature.",
 		MinNonTrivial: func(t string) int {
 			if t == ev.Thorough {
 				return 3000000
 			}
 			return 60000
 		},
-		Required: []string{"verify_accept_expected", "verify_reject_expected", "reject_recovery_fails", "reject_recovers_other", "accept_mutant_still_sender", "roundtrip_sign_recover", "binary_path", "json_path", "parse_rejected"},
+		Required: []string{"verify_accept_expected", "verify_reject_expected", "reject_recovery_fails", "reject_recovers_other", "accept_mutant_still_sender", "roundtrip_sign_recover", "binary_path", "json_path", "parse_rejected", "sender_type_mismatch_checked"},
 		Assumptions: []string{
 			"decred secp256k1 ecdsa.RecoverCompact/SignCompact called directly is the reference for 'who signed'",
 			"golang.org/x/crypto/sha3 is SHA3-256",
@@ -77,11 +77,12 @@ type v3bin struct {
 }
 
 type simpleTx struct {
-	val      *sig.Val
-	id       []byte
-	from     [20]byte
-	bin      v3bin
-	toIsSCO  bool
+	val       *sig.Val
+	id        []byte
+	from      [20]byte
+	fromSCORE bool // sender written as a contract address (cx…): no key owns one
+	bin       v3bin
+	toIsSCO   bool
 }
 
 func hexBig(v *big.Int) string { return "0x" + v.Text(16) }
@@ -311,6 +312,30 @@ func run(c *ev.Ctx) {
 			evalOne(c, p, &txC, variant{"valid", other.SignRSV(txC.id)}, other)
 		}
 
+		// (d) the sender is the CONTRACT-typed address with the signer's own 20-byte body
+		// (cx<body> vs the key's hx<body>): same body, other address; nobody can authorize it
+		txD := *txA
+		txD.val = txA.val.Clone()
+		txD.val.Set("from", sig.Str("cx"+hex.EncodeToString(k.Addr[:])))
+		txD.fromSCORE = true
+		txD.bin.From.SetTypeAndID(true, k.Addr[:])
+		txD.id = sig.RefTxID(txD.val)
+		// (e) same, and the recipient is the signer's account address
+		txE := *txB
+		txE.val = txB.val.Clone()
+		txE.val.Set("from", sig.Str("cx"+hex.EncodeToString(k.Addr[:])))
+		txE.from = k.Addr
+		txE.fromSCORE = true
+		txE.bin.From.SetTypeAndID(true, k.Addr[:])
+		txE.id = sig.RefTxID(txE.val)
+		for _, p := range paths {
+			for _, t := range []*simpleTx{&txD, &txE} {
+				evalOne(c, p, t, variant{"sender-type-contract-same-body", k.SignRSV(t.id)}, k)
+				evalOne(c, p, t, variant{"sender-type-contract-old-sig", k.SignRSV(txA.id)}, k)
+				c.Count("sender_type_mismatch_checked", 2)
+			}
+		}
+
 		roundTrips(c, r, k)
 	})
 }
@@ -342,11 +367,12 @@ func evalOne(c *ev.Ctx, p pathFn, t *simpleTx, v variant, signer *sig.Key) {
 func evalRef(c *ev.Ctx, p pathFn, t *simpleTx, v variant, signer *sig.Key, refAddr [20]byte, refOK bool, twice bool) {
 	c.Eval(1)
 	c.Count(p.name+"_path", 1)
-	want := refOK && refAddr == t.from
+	// an account key only ever owns the account-typed (hx) address with its 20-byte body
+	want := refOK && refAddr == t.from && !t.fromSCORE
 	wit := func(extra string) map[string]string {
 		return map[string]string{
 			"path": p.name, "class": v.class, "tx_json": string(t.jsonWith(v.sig)), "tx_id": hex.EncodeToString(t.id),
-			"signature_rsv": hex.EncodeToString(v.sig), "sender": "hx" + hex.EncodeToString(t.from[:]),
+			"signature_rsv": hex.EncodeToString(v.sig), "sender": map[bool]string{false: "hx", true: "cx"}[t.fromSCORE] + hex.EncodeToString(t.from[:]),
 			"reference_recovers": fmt.Sprintf("%v hx%x", refOK, refAddr), "sender_priv": hex.EncodeToString(signer.PrivBytes()), "note": extra,
 		}
 	}
@@ -369,7 +395,7 @@ func evalRef(c *ev.Ctx, p pathFn, t *simpleTx, v variant, signer *sig.Key, refAd
 		c.Violation("tx.id-differs-from-reference."+p.name, wit("goloop id "+hex.EncodeToString(tx.ID())))
 		return
 	}
-	if !bytes.Equal(tx.From().ID(), t.from[:]) {
+	if !bytes.Equal(tx.From().ID(), t.from[:]) || tx.From().IsContract() != t.fromSCORE {
 		c.Violation("tx.from-differs."+p.name, wit("goloop from "+tx.From().String()))
 		return
 	}
